@@ -638,6 +638,26 @@ def number_from_form(name, v):
     return {"int": int, "int64": np.int64, "uint64": np.uint64, "float": float, "float64": np.float64}.get(name, int)(v)
 
 
+
+def regenerate_with(res, module, gen_file, label):
+    """run translator `module` (translate/<module>.py, translate(repo) -> Coq text) into coq/Gen/<gen_file>"""
+    d = os.path.join(VERIF, "translate")
+    if d not in sys.path:
+        sys.path.insert(0, d)
+    import importlib
+    import c2gallina
+    try:
+        text = importlib.import_module(module).translate(REPO)
+    except c2gallina.Unsupported as e:
+        res.broken.append({"what": "%s: the source left the shape the translator accepts" % label, "log": str(e)})
+        return
+    except Exception as e:  # noqa
+        res.broken.append({"what": "%s failed" % label, "log": repr(e)})
+        return
+    write_if_changed(os.path.join(COQ, "Gen", gen_file), text)
+    res.trusted.append("translate/%s.py (%s, from Python's ast, fail-closed)" % (module, label))
+
+
 def regenerate_state_sites(res):
     """T17 (every property): the places where the sources could keep state outside the modelled objects
     -> coq/Gen/StateSites.v; Proofs/StateSitesProofs.v proves every list empty"""
